@@ -116,6 +116,8 @@ impl OutputFormat for Artworx {
         result.set_font(0, font);
         o += font_size;
 
+        // start from an empty layer: the rows pre-allocated by Buffer::new would survive crop_loaded_file
+        result.layers[0].lines.clear();
         loop {
             for _ in 0..result.get_width() {
                 if o + 2 > file_size {
